@@ -1,1 +1,396 @@
 // harness bodies for h2 src/proto/streams/state.rs (compiled in-crate as `verif_h`, feature "verif")
+//
+// Oracle: RFC 9113 §5.1 as two half-stream automata.  A stream is a pair
+// (send half, receive half), each in {Unopened, Open, Closed}; HEADERS opens the
+// half it travels on (or closes it with END_STREAM), END_STREAM closes it,
+// RST_STREAM / connection errors close both.  The mapping from h2's `State` to the
+// pair is `halves()`; every transition function is compared with the reference
+// transition on the pair, and must leave the *other* half untouched.
+use super::*;
+use http::HeaderMap;
+
+pub(crate) const H_UNOPENED: u8 = 0;
+pub(crate) const H_OPEN: u8 = 1;
+pub(crate) const H_CLOSED: u8 = 2;
+
+fn half(p: Peer) -> u8 {
+    match p {
+        AwaitingHeaders => H_UNOPENED,
+        Streaming => H_OPEN,
+    }
+}
+
+/// (send half, recv half)
+pub(crate) fn halves(s: &State) -> (u8, u8) {
+    match s.inner {
+        Idle => (H_UNOPENED, H_UNOPENED),
+        ReservedLocal => (H_UNOPENED, H_CLOSED),
+        ReservedRemote => (H_CLOSED, H_UNOPENED),
+        Open { local, remote } => (half(local), half(remote)),
+        HalfClosedLocal(r) => (H_CLOSED, half(r)),
+        HalfClosedRemote(l) => (half(l), H_CLOSED),
+        Closed(_) => (H_CLOSED, H_CLOSED),
+    }
+}
+
+/// shape index of the state (0..=11), see `state_of_shape`
+pub(crate) fn shape(s: &State) -> u8 {
+    match s.inner {
+        Idle => 0,
+        ReservedLocal => 1,
+        ReservedRemote => 2,
+        Open { .. } => 3,
+        HalfClosedLocal(_) => 4,
+        HalfClosedRemote(_) => 5,
+        Closed(Cause::EndStream) => 6,
+        Closed(Cause::Error(Error::Reset(..))) => 7,
+        Closed(Cause::ErrorAfterEndStream(_)) => 8,
+        Closed(Cause::ScheduledLibraryReset(_)) => 9,
+        Closed(Cause::Error(Error::GoAway(..))) => 10,
+        Closed(Cause::Error(Error::Io(..))) => 11,
+    }
+}
+
+pub(crate) fn any_peer() -> Peer {
+    if kani::any() { AwaitingHeaders } else { Streaming }
+}
+pub(crate) fn any_initiator() -> Initiator {
+    let k: u8 = kani::any();
+    match k % 3 {
+        0 => Initiator::User,
+        1 => Initiator::Library,
+        _ => Initiator::Remote,
+    }
+}
+
+/// The state of shape `k` (0..=11) with every payload symbolic.  `k` may be concrete
+/// (one query per shape) or symbolic.
+pub(crate) fn state_of_shape(k: u8, id: StreamId) -> State {
+    let reason: u32 = kani::any();
+    let inner = match k {
+        0 => Idle,
+        1 => ReservedLocal,
+        2 => ReservedRemote,
+        3 => Open { local: any_peer(), remote: any_peer() },
+        4 => HalfClosedLocal(any_peer()),
+        5 => HalfClosedRemote(any_peer()),
+        6 => Closed(Cause::EndStream),
+        7 => Closed(Cause::Error(Error::Reset(id, reason.into(), any_initiator()))),
+        8 => Closed(Cause::ErrorAfterEndStream(Error::Reset(id, reason.into(), any_initiator()))),
+        9 => Closed(Cause::ScheduledLibraryReset(reason.into())),
+        10 => Closed(Cause::Error(Error::GoAway(bytes::Bytes::new(), reason.into(), any_initiator()))),
+        _ => Closed(Cause::Error(Error::Io(std::io::ErrorKind::BrokenPipe, None))),
+    };
+    State { inner }
+}
+pub(crate) fn any_state(id: StreamId) -> State {
+    let k: u8 = kani::any();
+    kani::assume(k <= 11);
+    state_of_shape(k, id)
+}
+pub(crate) fn any_state_in(id: StreamId, lo: u8, hi: u8) -> State {
+    if lo == hi {
+        return state_of_shape(lo, id);
+    }
+    let k: u8 = kani::any();
+    kani::assume(k >= lo && k <= hi);
+    state_of_shape(k, id)
+}
+/// live (non-closed) shapes only
+pub(crate) fn any_live_state(id: StreamId) -> State {
+    let k: u8 = kani::any();
+    kani::assume(k <= 5);
+    state_of_shape(k, id)
+}
+
+pub(crate) fn set_inner_open_streaming(s: &mut State) {
+    s.inner = Open { local: Streaming, remote: Streaming };
+}
+
+fn same_cause_kind(a: &State, b: &State) -> bool {
+    shape(a) == shape(b)
+}
+
+/// C04.state.send_open: sending HEADERS.
+pub fn c04_state_send_open() {
+    let id = StreamId::from(1);
+    let mut st = any_state(id);
+    let before = st.clone();
+    let (s0, r0) = halves(&st);
+    let was_closed = st.is_closed();
+    let eos: bool = kani::any();
+    let r = st.send_open(eos);
+    let r = &r;
+    let (s1, r1) = halves(&st);
+    // reference: legal iff the send half is unopened and the stream is not closed;
+    // an Open{local: AwaitingHeaders} or HalfClosedRemote(AwaitingHeaders) or ReservedLocal
+    // or Idle stream - exactly the states with an unopened send half.
+    let legal = s0 == H_UNOPENED && !was_closed;
+    match r {
+        Ok(()) => {
+            assert!(legal, "HEADERS sent on a stream whose send half is already open or closed");
+            assert!(s1 == if eos { H_CLOSED } else { H_OPEN }, "send half after HEADERS");
+            assert!(r1 == r0, "sending HEADERS changed the receive half");
+            assert!(eos || st.is_send_streaming());
+            assert!(!eos || st.is_send_closed());
+        }
+        Err(e) => {
+            assert!(!legal, "legal HEADERS refused");
+            assert!(matches!(e, UserError::UnexpectedFrameType));
+            assert!(shape(&st) == shape(&before) && (s1, r1) == (s0, r0), "state changed on Err");
+        }
+    }
+    kani::cover!(r.is_ok() && eos && st.is_closed(), "closed_by_headers_eos");
+    kani::cover!(r.is_err() && !was_closed, "refused_live");
+    kani::cover!(true, "end");
+    std::mem::forget(st);
+    std::mem::forget(before);
+}
+
+/// C09.state.recv_open: receiving HEADERS (initial or informational).
+pub fn c09_state_recv_open() {
+    let id = StreamId::from(1);
+    let mut st = any_state(id);
+    let sh0 = shape(&st);
+    let (s0, r0) = halves(&st);
+    let eos: bool = kani::any();
+    let informational: bool = kani::any();
+    let pseudo = if informational {
+        frame::Pseudo::response(http::StatusCode::CONTINUE)
+    } else {
+        frame::Pseudo::default()
+    };
+    let mut h = frame::Headers::new(id, pseudo, HeaderMap::new());
+    if eos {
+        h.set_end_stream();
+    }
+    assert!(h.is_informational() == informational);
+    let r = st.recv_open(&h);
+    let (s1, r1) = halves(&st);
+    let legal = r0 == H_UNOPENED && sh0 <= 5;
+    match &r {
+        Ok(initial) => {
+            assert!(legal, "HEADERS accepted on a stream whose receive half is open or closed");
+            let want = if eos { H_CLOSED } else if informational { H_UNOPENED } else { H_OPEN };
+            assert!(r1 == want, "receive half after HEADERS");
+            assert!(s1 == s0, "receiving HEADERS changed the send half");
+            assert!(*initial == (sh0 == 0 || sh0 == 2), "`initial` flag");
+        }
+        Err(e) => {
+            assert!(!legal, "legal HEADERS rejected");
+            assert!(matches!(e, Error::GoAway(_, Reason::PROTOCOL_ERROR, Initiator::Library)),
+                "illegal HEADERS must be a connection error PROTOCOL_ERROR");
+            assert!(shape(&st) == sh0 && (s1, r1) == (s0, r0), "state advanced on an illegal frame");
+        }
+    }
+    kani::cover!(r.is_ok() && informational && !eos, "informational");
+    kani::cover!(r.is_err() && sh0 <= 5, "illegal_on_live");
+    kani::cover!(true, "end");
+    std::mem::forget(r);
+    std::mem::forget(h);
+    std::mem::forget(st);
+}
+
+/// C09.state.recv_close: END_STREAM received.
+pub fn c09_state_recv_close() {
+    let id = StreamId::from(1);
+    let mut st = any_state(id);
+    let sh0 = shape(&st);
+    let (s0, r0) = halves(&st);
+    let r = st.recv_close();
+    let (s1, r1) = halves(&st);
+    let legal = sh0 == 3 || sh0 == 4;
+    match &r {
+        Ok(()) => {
+            assert!(legal, "END_STREAM accepted in a state without an open receive half");
+            assert!(r1 == H_CLOSED && s1 == s0, "END_STREAM must close exactly the receive half");
+            assert!(st.is_recv_end_stream());
+        }
+        Err(e) => {
+            assert!(!legal);
+            assert!(matches!(e, Error::GoAway(_, Reason::PROTOCOL_ERROR, Initiator::Library)));
+            assert!(shape(&st) == sh0 && (s1, r1) == (s0, r0), "state advanced on an illegal END_STREAM");
+        }
+    }
+    kani::cover!(r.is_ok() && st.is_closed(), "closed");
+    kani::cover!(r.is_err(), "err");
+    kani::cover!(true, "end");
+    std::mem::forget(r);
+    std::mem::forget(st);
+}
+
+/// C04/C09: reserve_local / reserve_remote only from idle.
+pub fn c09_state_reserve() {
+    let id = StreamId::from(2);
+    let mut st = any_state(id);
+    let sh0 = shape(&st);
+    if kani::any() {
+        let r = st.reserve_remote();
+        match &r {
+            Ok(()) => assert!(sh0 == 0 && shape(&st) == 2),
+            Err(e) => {
+                assert!(sh0 != 0 && shape(&st) == sh0);
+                assert!(matches!(e, Error::GoAway(_, Reason::PROTOCOL_ERROR, Initiator::Library)));
+            }
+        }
+        std::mem::forget(r);
+    } else {
+        let r = st.reserve_local();
+        match r {
+            Ok(()) => assert!(sh0 == 0 && shape(&st) == 1),
+            Err(_) => assert!(sh0 != 0 && shape(&st) == sh0),
+        }
+    }
+    kani::cover!(shape(&st) == 2 && sh0 == 0, "reserved_remote");
+    kani::cover!(true, "end");
+    std::mem::forget(st);
+}
+
+/// C17.surface.recv_reset: a received RST_STREAM surfaces with the peer's exact code
+/// (all 2^32 values), origin Remote; a reset after END_STREAM keeps the end-of-stream.
+pub fn c17_surface_recv_reset_live() { surface_recv_reset(0, 5, false) }
+pub fn c17_surface_recv_reset_closed() { surface_recv_reset(6, 11, false) }
+pub fn c17_surface_poll_reset_live() { surface_recv_reset(0, 5, true) }
+pub fn c17_surface_poll_reset_closed() { surface_recv_reset(6, 11, true) }
+// `reason_query` selects which observer is asserted (two queries instead of one:
+// `ensure_reason` and `ensure_recv_open` together cost 10x the sum of the parts)
+fn surface_recv_reset(lo: u8, hi: u8, reason_query: bool) {
+    let id = StreamId::from(1);
+    let mut st = any_state_in(id, lo, hi);
+    let sh0 = shape(&st);
+    let was_closed = st.is_closed();
+    let recv_ended = st.is_recv_end_stream();
+    let code: u32 = kani::any();
+    let queued: bool = kani::any();
+    st.recv_reset(frame::Reset::new(id, code.into()), queued);
+    if was_closed && !queued {
+        assert!(shape(&st) == sh0, "RST_STREAM on a closed, fully consumed stream must change nothing");
+    } else {
+        assert!(st.is_closed() && st.is_reset() && st.is_remote_reset());
+        assert!(!st.is_local_error());
+        assert!(st.is_recv_end_stream() == recv_ended, "reset changed whether END_STREAM was received");
+        if reason_query {
+            let pr = st.ensure_reason(PollReset::Streaming);
+            match &pr {
+                Ok(Some(r)) => assert!(u32::from(*r) == code, "poll_reset reports a different code"),
+                _ => panic!("poll_reset does not report the reset"),
+            }
+            std::mem::forget(pr);
+        } else {
+            let ro = st.ensure_recv_open();
+            match &ro {
+                Ok(open) => assert!(recv_ended && !*open, "reset before END_STREAM must fail reads"),
+                Err(Error::Reset(i, r, Initiator::Remote)) => {
+                    assert!(!recv_ended, "a complete message must still be delivered after a reset");
+                    assert!(*i == id && u32::from(*r) == code);
+                }
+                Err(_) => panic!("wrong error surfaced"),
+            }
+            std::mem::forget(ro);
+        }
+    }
+    kani::cover!(was_closed || recv_ended, "reset_after_end_stream_or_closed");
+    kani::cover!(true, "end");
+    std::mem::forget(st);
+}
+
+/// C07/C17: handle_error / recv_eof close every live stream with the broadcast
+/// error and leave closed streams (complete messages) alone.
+pub fn c07_state_handle_error_goaway_live() { state_handle_error(0, 0, 5, false) }
+pub fn c07_state_handle_error_reset_live() { state_handle_error(1, 0, 5, false) }
+pub fn c07_state_handle_error_eof_live() { state_handle_error(2, 0, 5, false) }
+pub fn c07_state_poll_reset_goaway_live() { state_handle_error(0, 0, 5, true) }
+pub fn c07_state_poll_reset_reset_live() { state_handle_error(1, 0, 5, true) }
+pub fn c07_state_poll_reset_eof_live() { state_handle_error(2, 0, 5, true) }
+pub fn c07_state_handle_error_closed_goaway() { state_handle_error(0, 6, 11, false) }
+pub fn c07_state_handle_error_closed_reset() { state_handle_error(1, 6, 11, false) }
+pub fn c07_state_handle_error_closed_eof() { state_handle_error(2, 6, 11, false) }
+fn state_handle_error(which: u8, lo: u8, hi: u8, reason_query: bool) {
+    let id = StreamId::from(1);
+    let mut st = any_state_in(id, lo, hi);
+    let sh0 = shape(&st);
+    let was_closed = st.is_closed();
+    let code: u32 = kani::any();
+    let init = any_initiator();
+    if which == 0 {
+        let err = Error::GoAway(bytes::Bytes::new(), code.into(), init);
+        st.handle_error(&err);
+        std::mem::forget(err);
+    } else if which == 1 {
+        let err = Error::Reset(id, code.into(), init);
+        st.handle_error(&err);
+        std::mem::forget(err);
+    } else {
+        st.recv_eof();
+    }
+    if was_closed {
+        assert!(shape(&st) == sh0, "closed stream touched by a connection error");
+    } else {
+        assert!(st.is_closed());
+        if !reason_query {
+            let ro = st.ensure_recv_open();
+            match (&ro, which) {
+                (Err(Error::GoAway(_, r, i)), 0) => assert!(u32::from(*r) == code && *i == init),
+                (Err(Error::Reset(_, r, i)), 1) => assert!(u32::from(*r) == code && *i == init),
+                (Err(Error::Io(k, _)), 2) => assert!(*k == std::io::ErrorKind::BrokenPipe),
+                _ => panic!("stream does not surface the connection error"),
+            }
+            std::mem::forget(ro);
+        } else {
+            // poll_reset: a GOAWAY/RST reason is reported, an I/O failure is an error - never Pending/None
+            let pr = st.ensure_reason(PollReset::Streaming);
+            match (&pr, which) {
+                (Ok(Some(r)), 0) | (Ok(Some(r)), 1) => assert!(u32::from(*r) == code),
+                (Err(e), 2) => assert!(e.is_io()),
+                _ => panic!("poll_reset would hang or misreport after a connection error"),
+            }
+            std::mem::forget(pr);
+        }
+    }
+    kani::cover!(true, "end");
+    std::mem::forget(st);
+}
+
+/// C17.surface: what the public `h2::Error` reports equals what the stream state holds.
+pub fn c17_surface_error_conversion() {
+    let id = StreamId::from(3);
+    let code: u32 = kani::any();
+    let init = any_initiator();
+    let which: bool = kani::any();
+    let pe = if which {
+        Error::Reset(id, code.into(), init)
+    } else {
+        Error::GoAway(bytes::Bytes::from_static(b"dbg"), code.into(), init)
+    };
+    let e: crate::Error = pe.into();
+    assert!(e.reason().map(u32::from) == Some(code), "public error lost the code");
+    assert!(e.is_reset() == which && e.is_go_away() == !which);
+    assert!(e.is_remote() == (init == Initiator::Remote), "origin (remote) misreported");
+    assert!(e.is_library() == (init == Initiator::Library), "origin (library) misreported");
+    assert!(!e.is_io());
+    kani::cover!(e.is_remote() && e.is_go_away(), "remote_goaway");
+    kani::cover!(true, "end");
+    std::mem::forget(e);
+}
+
+/// State predicates are mutually consistent on every shape (used by the step harnesses).
+pub fn c04_state_predicates() {
+    let id = StreamId::from(1);
+    let st = any_state(id);
+    let (s, r) = halves(&st);
+    assert!(st.is_send_streaming() == (s == H_OPEN && !st.is_closed()));
+    assert!(st.is_recv_streaming() == (r == H_OPEN && !st.is_closed()));
+    assert!(st.is_closed() == (shape(&st) >= 6));
+    if st.is_closed() {
+        assert!(st.is_send_closed());
+    }
+    assert!(st.is_send_closed() == (s == H_CLOSED));
+    assert!(st.is_reset() == (shape(&st) >= 7));
+    assert!(st.is_scheduled_reset() == (shape(&st) == 9));
+    assert!(st.is_idle() == (shape(&st) == 0));
+    // recv-ended: the peer's END_STREAM was seen (or the stream is locally reserved)
+    assert!(st.is_recv_end_stream() == (shape(&st) == 5 || shape(&st) == 6 || shape(&st) == 8));
+    kani::cover!(st.is_send_streaming() && st.is_recv_streaming(), "open_both");
+    kani::cover!(true, "end");
+    std::mem::forget(st);
+}
